@@ -190,6 +190,61 @@ def _sum_check(F, b):
     return (ok_guard and ok_build and ok_idx), "sum check dominates the loop and fails into Err: %s; contents = header ++ stream ++ adler32: %s (%s); index advances by chunk_size: %s" % (ok_guard, ok_build, ext, idx)
 
 
+def x4(ctx, rep, rule="X4"):
+    """C05: the DEFLATE reader digests arbitrary bytes; every index, slice and unsigned subtraction in its modules is either
+    implied by guards of the same function (LIN) or a reviewed row naming the invariant that protects it."""
+    from ..tables import reader_bounds as RB
+    from ..ub import UB
+    F = ctx.lib
+    U = UB(F)
+    files = ("src/huffman_encoding.rs", "src/deflate_reader.rs", "src/bit_reader.rs", "src/huffman_helper.rs")
+    n = n_rev = 0
+    for name, b in sorted(F.bodies.items()):
+        if b.file not in files:
+            continue
+        short = name.replace(P, "")
+        try:
+            L, sites, facts, inn, out = lin.sites_and_facts(F, b)
+        except Exception as e:
+            rep.add(rule, "UNRECOGNISED-IDIOM:" + short, False, "%s:%s" % (b.file, b.line), "LIN evaluation failed: %s: %s" % (type(e).__name__, e))
+            continue
+        counts = {}
+        for s in sites:
+            n += 1
+            here = [f for f in facts if lin.holds_at(b, f[0], s.bb)]
+            unproved = []
+            for what, ob in s.obligations:
+                if ob is TOP:
+                    unproved.append("%s (cannot normalise)" % what)
+                elif lin.entailed(ob, here) is None:
+                    unproved.append("%s, i.e. %s >= 0" % (what, aff_str(ob)))
+            k = "%s:%s" % (s.kind, s.what)
+            counts[k] = counts.get(k, 0) + 1
+            key = "%s|%s%s" % (short, k, "" if counts[k] == 1 else "#%d" % counts[k])
+            if unproved and s.kind == "index":
+                # second chance for fixed-size arrays: upper-bound inference on the index (table elements, enum
+                # discriminants, masked values) against the constant length in the compiler's own bounds check
+                t = b.term(s.bb)
+                if t["k"] == "assert" and t.get("msg") == "BoundsCheck":
+                    from ..facts import op_const, const_int
+                    ln = const_int(op_const(t["ops"][0])) if op_const(t["ops"][0]) else None
+                    try:
+                        ubv = U.operand(b, t["ops"][1], at=s.bb)
+                    except Exception:
+                        ubv = None
+                    if ln is not None and ubv is not None and ubv < ln:
+                        unproved = []
+            if not unproved:
+                rep.add(rule, "in-bounds:" + key, True, s.where, "implied by guards of the function / upper bound of the index")
+            elif (short, s.kind, s.what) in RB.ROWS:
+                n_rev += 1
+                rep.add(rule, "reviewed:" + key, True, s.where, RB.ROWS[(short, s.kind, s.what)])
+            else:
+                rep.add(rule, "unguarded:" + key, False, s.where, "neither implied by a guard nor a reviewed row: %s" % "; ".join(unproved))
+    rep.floor(rule, "reader-access-sites", n, 20)
+    rep.stats["x4"] = {"sites": n, "reviewed_rows_used": n_rev}
+
+
 REVIEWED = {
     ("idat_parse::recreate_idat", "range", "var(contents)[var(index)..Add(var(index), var(chunk_size)).0]"):
         ("the chunk sizes sum to contents.len() (sum check), so the running index never passes the end", _sum_check),
